@@ -80,7 +80,11 @@ var viol = struct {
 
 func size(v lib.Violation) int {
 	if rp, ok := v.Replay.(Replay); ok {
-		return len(rp.Kills)*1000 + len(rp.Script)
+		n := len(rp.Kills)*1000 + len(rp.Script)
+		if rp.Note != "" {
+			n += 100000 // prefer replays that --replay can re-run (crash points) over stop/fault variants
+		}
+		return n
 	}
 	return 0
 }
@@ -102,12 +106,13 @@ func flushViolations(res *lib.Result) {
 }
 
 type runner struct {
-	f    lib.Flags
-	res  *lib.Result
-	drv  *lib.Driver
-	base string
-	seq  int
-	mu   *sync.Mutex
+	exhaustive bool // crash the current root run at EVERY boundary, with and without re-delivery
+	f          lib.Flags
+	res        *lib.Result
+	drv        *lib.Driver
+	base       string
+	seq        int
+	mu         *sync.Mutex
 }
 
 func (rn *runner) dir() string {
@@ -343,11 +348,16 @@ func (rn *runner) oracle(cfg *Cfg, ep *epoch, lin lineage, rp Replay, bootEffect
 			// the specific known way: the node is the proposer of (h, r); its own value is not in the
 			// log; replay asked the application again and RE-PROPOSED A DIFFERENT VALUE for (h, r)
 			// (both proposals were observed at the broadcaster)
+			// other known way (mode "store"): during this process' replay the application judged a
+			// value invalid ONLY because the in-memory proposal store of the dead process is gone
+			if len(ep.app.lostValid) > 0 {
+				sig += "-proposal-store-not-durable"
+			}
 			// ... in this round or an earlier round of the same height (the changed proposal changes
 			// what the node locks on, hence its votes in all later rounds of the height)
 			for r0 := 0; r0 <= w.r; r0++ {
 				key := [2]int{w.h, r0}
-				if cfg.proposerIdx(uint64(w.h), r0) == cfg.Me && differs(lin.props[key], own[key]) {
+				if len(ep.app.lostValid) == 0 && cfg.proposerIdx(uint64(w.h), r0) == cfg.Me && differs(lin.props[key], own[key]) {
 					sig += "-own-proposal-value-changed"
 					break
 				}
@@ -386,7 +396,7 @@ func (rn *runner) oracle(cfg *Cfg, ep *epoch, lin lineage, rp Replay, bootEffect
 		}
 	}
 	// (4) recovered state = uncrashed twin that processed the durable inputs
-	if twin != "" && cfg.AppMode == "stable" {
+	if twin != "" && (cfg.AppMode == "stable" || (cfg.AppMode == "store" && len(ep.app.lostValid) == 0)) {
 		res.Compared(1)
 		if ep.dumpBoot != twin {
 			sig := "recovered-state-differs-from-uncrashed-twin"
@@ -400,9 +410,21 @@ func (rn *runner) oracle(cfg *Cfg, ep *epoch, lin lineage, rp Replay, bootEffect
 				Replay: rp})
 		}
 	}
+	storeLost := len(ep.app.lostValid) > 0
 	for _, e := range ep.errs {
-		violate(lib.Violation{Sig: "driver-error-" + strings.SplitN(e, ":", 2)[0], What: e, Replay: rp})
+		kind := strings.SplitN(e, ":", 2)[0]
+		if ep.failAt >= 0 && kind == "run" {
+			continue // the injected fault makes Run return its error: expected
+		}
+		if cfg.AppMode == "store" && (kind == "commitlistener" || (kind == "run" && strings.Contains(e, "commit listener failed"))) {
+			// the replayed commit cannot be delivered: the build result of the decided value was
+			// only in the in-memory proposal store of the dead process
+			violate(lib.Violation{Sig: "replayed-commit-refused-proposal-store-not-durable", What: e, Replay: rp})
+			continue
+		}
+		violate(lib.Violation{Sig: "driver-error-" + kind, What: e, Replay: rp})
 	}
+	_ = storeLost
 }
 
 // differs: both non-empty and some value of ys is not among xs.
@@ -471,11 +493,15 @@ func (rn *runner) explore(cfg *Cfg, script []Input, startIdx int, ep *epoch, lin
 		for i := range ks {
 			ks[i] = i
 		}
-		if len(ks) > maxK {
+		if len(ks) > maxK && !(rn.exhaustive && depth == 0) {
 			lib.Shuffle(r, ks)
 			ks = ks[:maxK]
 		}
 		for _, k := range ks {
+			if rn.exhaustive && depth == 0 {
+				kills = append(kills, Kill{K: k}, Kill{K: k, Redeliver: true})
+				continue
+			}
 			kills = append(kills, Kill{K: k, Redeliver: r.Chance(1, 3)})
 		}
 	}
@@ -509,7 +535,7 @@ func (rn *runner) explore(cfg *Cfg, script []Input, startIdx int, ep *epoch, lin
 		}
 		rn.ask("push")
 		ans := rn.ask(fmt.Sprintf("crash %d", k))
-		rec, err := startEpoch(cfg, rn.dir(), ep.snaps[ep.snapAt[k]], ep.chainAt[k], uint64(depth+1))
+		rec, err := startEpoch(cfg, rn.dir(), ep.snaps[ep.snapAt[k]], ep.chainAt[k], uint64(depth+1), -1)
 		if err != nil {
 			violate(lib.Violation{Sig: "restart-fails", What: err.Error(), Replay: rp})
 			if rec != nil {
@@ -607,6 +633,112 @@ func aliasedStart(ep *epoch) bool {
 	return false
 }
 
+// graceful: the uncrashed process was stopped regularly (context cancelled in the select loop, Run
+// returned, the deferred Close flushed the pending batch). A new process on that image must be in
+// exactly the state the old one was in, and must not contradict it.
+func (rn *runner) graceful(cfg *Cfg, script []Input, ep *epoch) {
+	rp := Replay{Cfg: *cfg, Script: script, Note: "regular stop after the script, then restart"}
+	rn.ask("push")
+	rn.ask("close")
+	ans := rn.ask(fmt.Sprintf("crash %d", len(ep.effects)+1))
+	rec, err := startEpoch(cfg, rn.dir(), ep.closedSnap, ep.chainNow, 1, -1)
+	if err != nil {
+		violate(lib.Violation{Sig: "restart-fails-after-regular-stop", What: err.Error(), Replay: rp})
+		if rec != nil {
+			rec.stop()
+			rec.cleanup()
+		}
+		rn.ask("pop")
+		return
+	}
+	rec.stop()
+	if rn.drv != nil {
+		want := fmt.Sprintf("h=%d log=%s", rec.boot, joinOrDash(rec.loaded))
+		rn.res.Compared(1)
+		if got := stripPruned(ans); want != got {
+			rn.res.Mismatch(lib.Mismatch{Sig: "image-after-regular-stop", Input: rp, Model: ans, Impl: want})
+		}
+		rn.tie(rec, rp)
+	}
+	rn.hypotheses(rec, rp)
+	lin := lineage{props: map[[2]int][]string{}}.extend(ep, len(ep.effects), Kill{K: len(ep.effects)})
+	rn.oracle(cfg, rec, lin, rp, bootBoundary(rec), twinDump(cfg, ep.boot, append(append([]string{}, ep.loaded...), ep.appended...)))
+	if cfg.AppMode == "stable" {
+		rn.res.Compared(1)
+		if live := dumpSM(ep.real); live != rec.dumpBoot {
+			violate(lib.Violation{Sig: "state-lost-across-regular-restart",
+				What: "after a regular stop and restart the replayed state machine differs from the one that was stopped: " + diffHint(rec.dumpBoot, live), Replay: rp})
+		}
+	}
+	rn.res.Hit("regular-stop-restart")
+	rn.res.Case(fmt.Sprintf("%v|%v|graceful", *cfg, script), len(rec.loaded) > 0)
+	rec.cleanup()
+	rn.ask("pop")
+}
+
+// faulty: re-run the script with an injected fault at effect k of the uncrashed run (the k-th
+// effect is a Flush that returns an error, or a commit the listener refuses). The driver must stop
+// without making anything further visible; a restart must not contradict what was sent.
+func (rn *runner) faulty(cfg *Cfg, script []Input, ref *epoch, k int) {
+	rp := Replay{Cfg: *cfg, Script: script, Note: fmt.Sprintf("injected fault at effect %d (%s)", k, ref.effects[k].Tok)}
+	ep, err := startEpoch(cfg, rn.dir(), "", cfg.C0, 0, k)
+	if ep == nil {
+		rn.res.Note("faulty: %v", err)
+		return
+	}
+	defer ep.cleanup()
+	for i := 0; err == nil && i < len(script) && ep.failedAt < 0; i++ {
+		err = ep.feed(i, script[i])
+	}
+	ep.stop()
+	kind := strings.SplitN(ref.effects[k].Tok, ":", 2)[0]
+	rn.res.Hit("fault-injected-" + kind)
+	if ep.failedAt < 0 {
+		rn.res.Hit("fault-not-reached")
+		return
+	}
+	stopped := false
+	for _, e := range ep.errs {
+		if strings.HasPrefix(e, "run: ") {
+			stopped = true
+		}
+	}
+	if !stopped {
+		violate(lib.Violation{Sig: "driver-continues-after-failed-" + kind, What: "Run did not return an error after the injected fault", Replay: rp})
+	}
+	for _, e := range ep.effects[ep.failedAt:] {
+		if e.visible() {
+			violate(lib.Violation{Sig: "visible-effect-after-failed-" + kind,
+				What: fmt.Sprintf("after the injected fault the driver still performed %q", e.Tok), Replay: rp})
+		}
+	}
+	// restart on what the stopped process left behind
+	rec, err := startEpoch(cfg, rn.dir(), ep.closedSnap, ep.chainNow, 1, -1)
+	if err != nil {
+		violate(lib.Violation{Sig: "restart-fails-after-fault", What: err.Error(), Replay: rp})
+		if rec != nil {
+			rec.stop()
+			rec.cleanup()
+		}
+		return
+	}
+	for i := 0; i < len(script); i++ { // everything is delivered again (peers resend)
+		if script[i].K == "t" || (script[i].K == "c" && script[i].H > uint64(rec.real.Height()) && script[i].Sender != firstOther(cfg)) {
+			continue
+		}
+		if rec.feed(i, script[i]) != nil {
+			break
+		}
+	}
+	rec.stop()
+	lin := lineage{props: map[[2]int][]string{}}.extend(ep, len(ep.effects), Kill{K: k})
+	// Close has flushed whatever was pending, and a refused commit must not have pruned anything:
+	// the restarted node must be where an uncrashed machine fed ALL logged inputs is
+	rn.oracle(cfg, rec, lin, rp, bootBoundary(rec), twinDump(cfg, ep.boot, ep.appended))
+	rn.res.Case(fmt.Sprintf("%v|%v|fault%d", *cfg, script, k), true)
+	rec.cleanup()
+}
+
 func firstOther(cfg *Cfg) int {
 	if cfg.Me == 0 {
 		return 1
@@ -636,7 +768,7 @@ func stripPruned(ans string) string {
 // rootCase runs one uncrashed process (generating the script on the way unless it is given), then
 // explores its crash points.
 func (rn *runner) rootCase(cfg *Cfg, script []Input, genLen int, r *lib.RNG, fixed []Kill) {
-	ep, err := startEpoch(cfg, rn.dir(), "", cfg.C0, 0)
+	ep, err := startEpoch(cfg, rn.dir(), "", cfg.C0, 0, -1)
 	if err != nil {
 		violate(lib.Violation{Sig: "boot-fails", What: err.Error(), Replay: Replay{Cfg: *cfg}})
 		if ep != nil {
@@ -664,7 +796,13 @@ func (rn *runner) rootCase(cfg *Cfg, script []Input, genLen int, r *lib.RNG, fix
 			}
 		}
 	}
-	ep.stop()
+	viaListener := r.Bool()
+	ep.stopVia(viaListener)
+	if viaListener {
+		rn.res.Hit("stopped-by-closed-listener")
+	} else {
+		rn.res.Hit("stopped-by-context")
+	}
 	rp := Replay{Cfg: *cfg, Script: script}
 	// statistics of the uncrashed run
 	for _, in := range script {
@@ -707,6 +845,21 @@ func (rn *runner) rootCase(cfg *Cfg, script []Input, genLen int, r *lib.RNG, fix
 	}
 	rn.res.Case(fmt.Sprintf("%v|%v", *cfg, script), len(ep.effects) > 2)
 	rn.explore(cfg, script, 0, ep, lineage{props: map[[2]int][]string{}}, 0, r, fixed)
+	if fixed != nil {
+		return
+	}
+	rn.graceful(cfg, script, ep)
+	// fault injection at (a sample of) the flushes and commit deliveries of the run
+	var fk []int
+	for k, e := range ep.effects {
+		if e.Tok == "flush" || strings.HasPrefix(e.Tok, "deliver:") {
+			fk = append(fk, k)
+		}
+	}
+	lib.Shuffle(r, fk)
+	for i := 0; i < len(fk) && i < rn.f.Scale(2, 6); i++ {
+		rn.faulty(cfg, script, ep, fk[i])
+	}
 }
 
 func scriptToks(s []Input) string {
@@ -744,6 +897,10 @@ func directed() []Replay {
 		{Note: "proposer whose value gets a polka and its precommit; value source changes across restarts; the prevote timer fires after the restart",
 			Cfg:    Cfg{Powers: eq4, Tbl: []int{0, 1, 2, 3}, PMul: 0, Me: 0, C0: 3, AppMode: "fresh"},
 			Script: []Input{{K: "v", H: 4, R: 0, Sender: 1, Val: 4001}, {K: "v", H: 4, R: 0, Sender: 2, Val: 4001}, {K: "t", Step: 1, H: 4, R: 0}}},
+		{Note: "validity = 'build result in the in-memory proposal store' (as consensus/proposer): non-proposer prevotes and precommits a value, restarts, replays with an empty store",
+			Cfg: Cfg{Powers: eq4, Tbl: []int{1, 2, 3, 0}, PMul: 1, Me: 3, C0: 0, AppMode: "store"},
+			Script: []Input{{K: "p", H: 1, R: 0, Sender: 2, VR: -1, Val: 41}, {K: "v", H: 1, R: 0, Sender: 0, Val: 41}, {K: "v", H: 1, R: 0, Sender: 1, Val: 41},
+				{K: "c", H: 1, R: 0, Sender: 0, Val: 41}, {K: "c", H: 1, R: 0, Sender: 1, Val: 41}, {K: "v", H: 2, R: 0, Sender: 0, Val: 53}}},
 		{Note: "non-proposer, two heights on the happy path, stable value source",
 			Cfg: Cfg{Powers: eq4, Tbl: []int{1, 2, 3, 0}, PMul: 1, Me: 3, C0: 0, AppMode: "stable"},
 			Script: []Input{{K: "p", H: 1, R: 0, Sender: 2, VR: -1, Val: 41}, {K: "v", H: 1, R: 0, Sender: 0, Val: 41}, {K: "v", H: 1, R: 0, Sender: 1, Val: 41},
@@ -827,6 +984,9 @@ func main() {
 		if i%10 == 9 {
 			cfg.AppMode = "fresh"
 		}
+		if i%10 == 4 {
+			cfg.AppMode = "store"
+		}
 		jobs = append(jobs, job{cfg: cfg, n: r.Range(4, f.Scale(26, 40)), id: uint64(i)})
 	}
 	workers := 12
@@ -842,6 +1002,7 @@ func main() {
 			}
 			rn := &runner{f: f, res: res, drv: drv, base: filepath.Join(base, fmt.Sprintf("w%d", w))}
 			for j := range ch {
+				rn.exhaustive = j.script != nil
 				rn.rootCase(j.cfg, j.script, j.n, root.Fork(j.id+7777), nil)
 			}
 			if drv != nil {
